@@ -88,6 +88,13 @@ def mk_step(I, recipe, idx, to, frm=None, trash=False, discards=False, book=True
         # BOOK: trash = what the step discarded from its destination
         assume_fact(I, lambda t: tr.amt[t] == amount(to[0], t) - amount(to[1], t))
         assume_fact(I, lambda t: z3.Implies(tr.mem[t], su.mem[t]))
+        # BOOK (from C17's contract of remove + the trash obligation of bake): a discarding step only takes away, so if
+        # its trash record is empty, every cell of its destination is unchanged
+        from pyvc.symcoll import WS as _WS
+        nonempty = tr.sym_truth(I)
+        for a, b in zip(cells(to[0]), cells(to[1])):
+            for k_ in _WS:
+                I.assume(z3.Implies(z3.Not(nonempty), _WS[k_](b.fields['contents'].amt) == _WS[k_](a.fields['contents'].amt)))
     s.fields.update(recipe=recipe, operator='abstract', operands=(), instructions='', frm_slice=None, to_slice=None,
                     to=[to[0], to[1]], frm=[frm[0], frm[1]] if frm else [None, None],
                     objects_used=B.make_set(I, names), substances_used=su, trash=tr)
@@ -128,6 +135,10 @@ def scenario(I, name, book=True):
         steps = [mk_step(I, None, 0, (P0, P1), (A0, A1)), mk_step(I, None, 1, (P1, P2), None, trash=True)]
         res = {'A': A1, 'P': P2}
         chain = {'A': [A0, A1], 'P': [P0, P1, P2]}
+    elif name == 'c2p,same':               # A -> P, then a transfer between wells of P itself
+        steps = [mk_step(I, None, 0, (P0, P1), (A0, A1)), mk_step(I, None, 1, (P1, P2), (P1, P2))]
+        res = {'A': A1, 'P': P2}
+        chain = {'A': [A0, A1], 'P': [P0, P1, P2]}
     elif name == 'c2c,c2p,p2c':            # A -> B, B -> P, P -> A
         steps = [mk_step(I, None, 0, (B0, B1), (A0, A1)), mk_step(I, None, 1, (P0, P1), (B1, B2)),
                  mk_step(I, None, 2, (A1, A2), (P1, P2))]
@@ -148,6 +159,7 @@ STAGES = {
     'c2p,remove': {'all': SliceV(None, None, None), 's1': SliceV(0, 1, None), 's2': SliceV(1, 2, None)},
     'c2c,c2p,p2c': {'all': SliceV(None, None, None), 's1': SliceV(0, 2, None), 's2': SliceV(2, 3, None)},
     'fill': {'all': SliceV(None, None, None)},
+    'c2p,same': {'all': SliceV(None, None, None), 's1': SliceV(0, 1, None), 's2': SliceV(1, 2, None)},
 }
 
 
@@ -163,7 +175,7 @@ def tasks(tier, pid):
         t.append(('used_additive', 'c2p,remove'))
         t.append(('used_additive', 'c2c,c2p,p2c'))
     if pid == 'C15':
-        for sc in ('c2p', 'c2p,c2p', 'c2p,remove', 'c2c,c2p,p2c', 'fill'):
+        for sc in ('c2p', 'c2p,c2p', 'c2p,remove', 'c2c,c2p,p2c', 'fill', 'c2p,same'):
             for tf in STAGES[sc]:
                 for obj in ('A', 'P', 'B'):
                     for unit in ('uL', 'mg'):
@@ -238,7 +250,44 @@ def run_used(pid, sc, tf, dest, k, unit):
             continue
         res += vc.discharge(I, name, case, 15000, ladder=qf_ladder, inputs={'placeholder': z3.RealVal(0)},
                             replay_fn=lambda mv, ob: used_replay(k, unit, ob.name))
-    return clib.dedupe(res)
+    res = clib.dedupe(res)
+    if any(r['verdict'] == 'unsupported' for r in res):
+        res += native_fallback(name + 'ensures[net-gain]', case, used_replay(k, unit, 'ensures[net-gain]'))
+    return native_refute_unknowns(res, used_replay(k, unit, 'undecided clauses'))
+
+
+def native_refute_unknowns(res, jobs):
+    """property obligations the solvers left undecided (quantified facts about abstract records): the replay scenario of
+    the function is executed on the real code; if it misbehaves there, the undecided obligations are reported as
+    refuted with that concrete input (an undecided obligation alone is never reported as a violation)"""
+    unk = [r for r in res if r['kind'] == 'property' and r['verdict'] == 'unknown']
+    if not unk:
+        return res
+    from pyvc import harness
+    for job in jobs:
+        out = harness.run_replay(job)
+        if out.get('ok') is False:
+            for r in unk:
+                r['verdict'] = 'refuted'
+                r['independent'] = True
+                r['backend'] = 'native run of the replay scenario (solver: unknown)'
+                r['note'] = ((r.get('note') or '') + ' | ' + str(out.get('observed')))[:500]
+                r['replays'] = [job]
+            break
+    return res
+
+
+def native_fallback(name, case, jobs):
+    """the body uses a construct the engine cannot follow (nothing is proved for this case): the replay scenario of the
+    clause is still executed on the real code, and a misbehaviour there is a concrete failing input"""
+    from pyvc import harness
+    for job in jobs:
+        out = harness.run_replay(job)
+        if out.get('ok') is False:
+            return [{'name': name, 'case': case, 'kind': 'property', 'verdict': 'refuted', 'independent': True, 'secs': 0.0,
+                     'backend': 'native run of the replay scenario (engine: unsupported construct)',
+                     'note': str(out.get('observed'))[:400], 'replays': [job]}]
+    return []
 
 
 def used_replay(k, unit, clause):
@@ -320,12 +369,17 @@ def run_flows(pid, sc, tf, objname, unit):
         for i in idx:
             st_ = steps[i]
             to0, frm0 = st_.fields['to'][0], st_.fields['frm'][0]
+            if to0 is not None and frm0 is not None and to0.fields['name'] == objname == frm0.fields['name']:
+                # a transfer inside the object (plate to itself): a well that gained has inflow, one that lost outflow
+                a, b = total_in(I, st_.fields['to'][0], unit), total_in(I, st_.fields['to'][1], unit)
+                inflow = [x + z3.If(q >= p_, q - p_, 0) for x, p_, q in zip(inflow, a, b)]
+                outflow = [x + z3.If(p_ > q, p_ - q, 0) for x, p_, q in zip(outflow, a, b)]
+                continue
             if to0 is not None and to0.fields['name'] == objname:
                 a, b = total_in(I, st_.fields['to'][0], unit), total_in(I, st_.fields['to'][1], unit)
                 if isinstance(st_.fields['trash'], SymMap):
-                    # a discarding step: everything it took out of the object is outflow (scalar over the object)
-                    tot = sum((x - y for x, y in zip(a, b)), z3.RealVal(0))
-                    outflow = [outflow[0] + tot] + outflow[1:] if ncell == 1 else [o_ + tot for o_ in outflow]
+                    # a discarding step: what it took out of each well (of the container) left that well
+                    outflow = [o_ + (x - y) for o_, x, y in zip(outflow, a, b)]
                 else:
                     inflow = [x + (q - p_) for x, p_, q in zip(inflow, a, b)]
             if frm0 is not None and frm0.fields['name'] == objname:
@@ -348,16 +402,14 @@ def run_flows(pid, sc, tf, objname, unit):
             unr_in = [unrounded(real(v)) if is_sym(v) else real(v) for v in fin]
             unr_out = [unrounded(real(v)) if is_sym(v) else real(v) for v in fout]
             if all(v is not None for v in unr_in + unr_out):
-                trash_steps = any(isinstance(steps[i].fields['trash'], SymMap) and steps[i].fields['to'][0].fields['name'] == objname for i in idx)
-                if not trash_steps:
-                    I.oblige('get_container_flows/ensures[in]', z3.And(*[a == b for a, b in zip(unr_in, inflow)]), 'property',
-                             note='inflow = sum of the gains of the object as destination')
-                    I.oblige('get_container_flows/ensures[out]', z3.And(*[a == b for a, b in zip(unr_out, outflow)]), 'property',
-                             note='outflow = sum of the losses of the object as source (+ discarded)')
+                I.oblige('get_container_flows/ensures[in]', z3.And(*[a == b for a, b in zip(unr_in, inflow)]), 'property',
+                         note='inflow = sum of the gains of the object as destination')
+                I.oblige('get_container_flows/ensures[out]', z3.And(*[a == b for a, b in zip(unr_out, outflow)]), 'property',
+                         note='outflow = sum of the losses of the object as source (+ discarded), per well')
                 # balance: in - out = remaining(end) - remaining(start)  (summed over the object)
                 first = [p for i in idx for p in touched(steps[i], objname)][:1]
                 last = [p for i in idx for p in touched(steps[i], objname)][-1:]
-                if first and not trash_steps:
+                if first:
                     start = sum(total_in(I, first[0][0], unit), z3.RealVal(0))
                     end = sum(total_in(I, last[0][1], unit), z3.RealVal(0))
                     I.oblige('lemma[flows-balance]', sum(unr_in, z3.RealVal(0)) - sum(unr_out, z3.RealVal(0)) == end - start,
@@ -386,8 +438,19 @@ def run_flows(pid, sc, tf, objname, unit):
             continue
         if isinstance(out, vc.Outcome) and out.kind == 'end':
             continue
-        res += vc.discharge(I, name, case, 15000, ladder=clib.ladder)
-    return [dict(x, name=x['name'] if x['name'].startswith(pid) else x['name']) for x in clib.dedupe(res)]
+        res += vc.discharge(I, name, case, 15000, ladder=clib.ladder, inputs={'placeholder': z3.RealVal(0)},
+                            replay_fn=lambda mv, ob: flows_replay(unit, ob.name))
+    res = clib.dedupe(res)
+    if any(r['verdict'] == 'unsupported' for r in res):
+        res += native_fallback(name + 'get_container_flows/ensures[in]', case, flows_replay(unit, 'ensures[in]'))
+    return native_refute_unknowns(res, flows_replay(unit, 'undecided clauses'))
+
+
+def flows_replay(unit, clause):
+    inputs = {'unit': unit, 'clause': clause}
+    code = ("import json\nfrom contracts.tracker_oracle import replay_flows\nJ = json.loads(%r)\n"
+            "def run():\n    return replay_flows(J['unit'])\n" % json.dumps(inputs))
+    return [{'inputs': inputs, 'code': code}]
 
 
 def run_canaries(pid):
